@@ -93,6 +93,24 @@ namespace {
       bool owning() const override { return true; }
    };
 
+   // -- owning flavour, keys far apart, compared by a comparator whose result is wider than int (a signed difference of 64-bit
+   //    values: any negative / zero / positive answer is an ordering; differences here are multiples of 2^31, so they are 0 or of
+   //    the other sign when cut to 32 bits)
+   struct WideCmp {
+      long long operator()(long long stored, long long key) const { return stored - key; }
+   };
+   struct OwnWide : Tree {
+      struct Probe : rb::container<long long> { auto r() const { return root; } } c;
+      using N = rb::node<long long>;
+      Shape<N, int (*)(const N&)> sh;
+      static long long spread(int k) { return static_cast<long long>(k) << 31; }
+      int insert(int k) override { return static_cast<int>(*c.insert(spread(k), WideCmp{}) >> 31); }
+      bool find(int k) override { return c.find(spread(k), WideCmp{}) != nullptr; }
+      long size() override { return c.size(); }
+      Value shape() override { return sh.dump(c.r(), +[](const N& n) { return static_cast<int>(n.data >> 31); }); }
+      bool owning() const override { return true; }
+   };
+
    // -- owning flavour, keys ordered by address (the comparator ipr uses for nodes): rank = index in a pool
    struct Cell { int rank; };
    struct AddrElem { const Cell* cell; };
@@ -192,6 +210,7 @@ namespace {
    {
       if (kind == "owning") return std::make_unique<OwnInt>();
       if (kind == "address") return std::make_unique<OwnAddr>(maxkey);
+      if (kind == "wide") return std::make_unique<OwnWide>();
       if (kind == "lexicographic") return std::make_unique<OwnLex>();
       if (kind == "chain") return std::make_unique<Chain>();
       throw std::runtime_error("unknown tree kind " + kind);
@@ -364,7 +383,7 @@ namespace {
             std::cout << vj::dump(fe) << "\n";
          }
       };
-      for (auto kind : {"owning", "chain", "address", "lexicographic"}) {
+      for (auto kind : {"owning", "chain", "address", "lexicographic", "wide"}) {
          for (int n : {maxn / 8, maxn}) {
             std::vector<int> asc, desc, zig, rnd, dup;
             for (int k = 1; k <= n; ++k) { asc.push_back(k); desc.push_back(n + 1 - k); }
